@@ -154,6 +154,39 @@ Theorem C31_format_parse_ampm_refuted :
 Proof. exact ampm_ignored. Qed.
 Print Assumptions C31_format_parse_ampm_refuted.
 
+(* TIMESTAMPDIFF(MONTH) (monthsDiff): zero on equal moments, antisymmetric, and exactly n after adding n months
+   without clamping; QUARTER / YEAR divide by 3 / 12 truncating toward zero *)
+Theorem C31_months_diff_refl : forall a, months_diff a a = 0.
+Proof. exact months_diff_refl. Qed.
+Print Assumptions C31_months_diff_refl.
+
+Theorem C31_months_diff_antisymmetric : forall a b, moment_lt a b = true -> months_diff b a = - months_diff a b.
+Proof. exact months_diff_antisym. Qed.
+Print Assumptions C31_months_diff_antisymmetric.
+
+Theorem C31_months_diff_add_months : forall y m d t n,
+  valid_date (y, m, d) = true -> no_clamp_months (y, m, d) n = true -> 0 <= n ->
+  months_diff ((y, m, d), t) (add_months (y, m, d) n, t) = n.
+Proof. exact months_diff_add_months. Qed.
+Print Assumptions C31_months_diff_add_months.
+
+(* ... but the tie-break on equal days of the month ignores the minutes (sql.SecondsPerMinute = 0):
+   TIMESTAMPDIFF(MONTH, '1950-04-29 12:22:47', '1950-04-29 12:38:15') = -1 *)
+Theorem C31_months_diff_same_day_refuted : months_diff ((1950, 4, 29), 44567) ((1950, 4, 29), 45495) = -1.
+Proof. exact months_diff_ignores_minutes. Qed.
+Print Assumptions C31_months_diff_same_day_refuted.
+
+(* types.DatetimeType.Convert on 'YYYY-MM-DD' (parseDatetime): exact on existing dates; a non-existent day is
+   re-read from a shorter prefix, so CAST('2023-02-30' AS DATE) is 2023-02-03 instead of being rejected *)
+Theorem C31_cast_date_valid_exact : forall y m d, valid_date (y, m, d) = true -> cast_date_str y m d = (y, m, d).
+Proof. exact cast_date_valid_exact. Qed.
+Print Assumptions C31_cast_date_valid_exact.
+
+Theorem C31_cast_invalid_date_rejected_refuted :
+  cast_date_str 2023 2 30 = (2023, 2, 3) /\ valid_date (2023, 2, 30) = false.
+Proof. exact cast_date_misparses. Qed.
+Print Assumptions C31_cast_invalid_date_rejected_refuted.
+
 Example C31_nonvacuous :
   days_from_civil (1970, 1, 1) = 0 /\ civil_from_days 19782 = (2024, 2, 29) /\
   add_months (2024, 1, 15) (-1) = (2023, 12, 15) /\ add_years (2024, 2, 29) 1 = (2025, 2, 28) /\
